@@ -12,7 +12,9 @@ PARALLEL = 8
 IMPORTS = "From Verif Require Import C17.Model C17.Spec C17.Tables C17.Corr."
 CASE_TYPE = "C17.Corr.case"
 RUNNER = "C17.Corr.run"
-FINDING_CLASSES = {1: "C17-F1", 2: "C17-F2"}
+# 1: open; 2: repaired by 16472e5d (still recognised by Corr.cls so that a regression is named: the finding being
+# closed, the driver reports it as VIOLATION); 3: open (what 16472e5d left of the eduPersonTargetedID special case)
+FINDING_CLASSES = {1: "C17-F1", 2: "C17-F2", 3: "C17-F3"}
 RULE = ("EVERY (bundled map, local attribute) pair of the live tables: one send case, one send->receive case through "
         "the five bundled converters and one through that map alone; EVERY (bundled map, wire name) pair: receive with "
         "allow_unknown_attributes off and on (names in random case / ASCII-whitespace padding); value lists drawn from "
@@ -21,7 +23,9 @@ RULE = ("EVERY (bundled map, local attribute) pair of the live tables: one send 
         "collapsing to one local name) against bundled / bundled-without-ADFS / single / empty converter sets; random "
         "custom maps (to-only, fro-only, both, asymmetric, several wire names per local name, case-colliding keys, "
         "empty wire name, eduPersonTargetedID OID, padded wire names, sets sharing a name format) with load, send, "
-        "receive and round-trip cases over all their names.  Received attributes are saml.Attribute objects parsed by "
+        "receive and round-trip cases over all their names; the eduPersonTargetedID value space ([], [''], blank, padded, "
+        "several, unicode) x {bundled, 'to'-only, 'fro'-only, both tables, local name in another case, local name "
+        "'eptid'} x {send->receive via XML / objects, receive of NameID-wrapped values with and without qualifiers}.  Received attributes are saml.Attribute objects parsed by "
         "saml.attribute_from_string from XML rendered by this harness (or, for 'obj' cases, built directly); round trips "
         "serialise with the real to_string.  non-trivial = distinct (kind, converter-set class, name format class, "
         "attribute class, value-list class, allow, transport)")
@@ -704,6 +708,32 @@ def generate_custom(ctx, cases):
                                 shape=m["shape"], quirks=m["quirks"]))
     # a map dictionary with neither table
     cases.append(mk("load", "load", src={"identifier": NF_URI, "to": None, "fro": None}, shape="none", quirks=[]))
+    # 4. eduPersonTargetedID through custom maps, complete over (map shape x value list x transport); no randomness.
+    # to-only / fro-only / other-case spellings are what 16472e5d repaired (class 2); 'eptid' is open class 3.
+    eptid_maps = [
+        ("to", {"identifier": NF_URI, "to": [["eduPersonTargetedID", EPTID_OID]], "fro": None}, "eduPersonTargetedID"),
+        ("fro", {"identifier": NF_URI, "to": None, "fro": [[EPTID_OID, "eduPersonTargetedID"]]}, "eduPersonTargetedID"),
+        ("both", {"identifier": NF_URI, "to": [["eduPersonTargetedID", EPTID_OID]],
+                  "fro": [[EPTID_OID, "eduPersonTargetedID"]]}, "eduPersonTargetedID"),
+        ("both-case", {"identifier": NF_BASIC, "to": [["EDUPERSONTARGETEDID", EPTID_OID], ["mail", "urn:x:mail"]],
+                       "fro": [[EPTID_OID, "EduPersonTargetedId"], ["urn:x:mail", "mail"]]}, "edupersontargetedID"),
+        ("renamed", {"identifier": NF_URI, "to": [["eptid", EPTID_OID]], "fro": [[EPTID_OID, "eptid"]]}, "eptid"),
+        ("renamed-to", {"identifier": NF_URI, "to": [["targetedId", EPTID_OID]], "fro": None}, "targetedID"),
+    ]
+    quals = [["format", PERSISTENT], ["name_qualifier", "https://idp.example.org"], ["sp_name_qualifier", "https://sp.example.org"]]
+    for shape, src, key in eptid_maps:
+        acs = {"custom": [src]}
+        cases.append(mk("load", "load", src=src, shape="eptid-" + shape, quirks=[]))
+        for vals in ([], [""], ["  "], ["abc"], [" abc\n"], ["a", "b"], ["a", ""], ["", "a", ""], ["名"]):
+            for via in ("xml", "obj"):
+                for allow in (False, True):
+                    cases.append(mk("round", "eptid-custom", acs=acs, ava=[[key, vals]], nf=src["identifier"], allow=allow,
+                                    via=via, shape="eptid-" + shape, quirks=[]))
+                for at in ([["format", PERSISTENT]], quals, []):
+                    cases.append(mk("recv", "eptid-custom", acs=acs, allow=False, via=via, shape="eptid-" + shape, quirks=[],
+                                    attrs=[wattr(EPTID_OID, src["identifier"], [["n", at, v] for v in vals])]))
+            cases.append(mk("send", "eptid-custom", acs=acs, ava=[[key, vals]], nf=src["identifier"], shape="eptid-" + shape,
+                            quirks=[]))
     return cases
 
 
